@@ -27,10 +27,11 @@ type c18case struct {
 	B        int
 	Gaps     []int // multiples of I/2
 	Duration time.Duration
+	Fails    int // the first Fails event runs of the throttled hook fail (retries are executions too)
 }
 
 func (c c18case) String() string {
-	return fmt.Sprintf("I=%s/B=%d/gaps=%v/dur=%s", c.I, c.B, c.Gaps, c.Duration)
+	return fmt.Sprintf("I=%s/B=%d/gaps=%v/dur=%s/fails=%d", c.I, c.B, c.Gaps, c.Duration, c.Fails)
 }
 
 func c18hookA(c c18case) string {
@@ -69,8 +70,14 @@ func c18body(c c18case, obs *c18obs) func(x *vrt.Exec) {
 				panic(err)
 			}
 		}
+		failed := 0
 		fx.Script = func(run *fxRun) fxOutcome {
 			if run.Hook == "a.sh" {
+				if len(run.Contexts) > 0 && run.Contexts[0]["type"] == "Event" && failed < c.Fails {
+					failed++
+					run.Failed = true
+					return fxOutcome{Duration: c.Duration, Exit: 1}
+				}
 				return fxOutcome{Duration: c.Duration}
 			}
 			return fxOutcome{}
@@ -123,7 +130,7 @@ func c18body(c c18case, obs *c18obs) func(x *vrt.Exec) {
 			want := fmt.Sprintf("/v%d/", len(c.Gaps))
 			seen := map[string]bool{}
 			for _, r := range fx.Runs {
-				if r.EndSeq == 0 {
+				if r.EndSeq == 0 || r.Failed {
 					continue
 				}
 				for _, cc := range r.Contexts {
@@ -232,7 +239,7 @@ func TestVerifC18(t *testing.T) {
 				}
 				for _, dur := range []time.Duration{0, cf.I} {
 					if dur == 0 || cf.I > 0 {
-						cases = append(cases, c18case{cf.I, cf.B, gaps, dur})
+						cases = append(cases, c18case{cf.I, cf.B, gaps, dur, 0})
 					}
 				}
 				i := n - 1
@@ -250,7 +257,11 @@ func TestVerifC18(t *testing.T) {
 			}
 		}
 	}
-	r.Bound("configurations", "(1s,1) (2s,3) (500ms,2) none")
+	// failing runs: retries are executions as well and must respect the limit (interval longer than the back-off)
+	for _, fails := range []int{1, 2, 3} {
+		cases = append(cases, c18case{30 * time.Second, 1, []int{0}, 0, fails}, c18case{30 * time.Second, 2, []int{0, 1}, 0, fails}, c18case{8 * time.Second, 1, []int{0}, 0, fails})
+	}
+	r.Bound("configurations", "(1s,1) (2s,3) (500ms,2) none; with failing runs (30s,1) (30s,2) (8s,1)")
 	r.Bound("max_arrivals", maxLen)
 	r.Bound("cases", len(cases))
 	shard, shards := vres.Shard()
